@@ -1143,6 +1143,32 @@ def check_rich(seed: int, index: int) -> Optional[C.Failing]:
         df = canon.diff(want, canon.canon(obj))
         if df:
             return C.Failing("rich:update:differs:" + c03.sig_of(df, "file", want).split(":", 2)[-1], f"update() with nothing written in between changed the object: {df[:200]}", case)
+        # (round 8) another instance replaces content that hangs BELOW an attribute value, twice: the second administration
+        # compares == to the first in Python (AdministrativeInformation.__eq__ looks at version / revision / creator / template
+        # id only) but carries other data specifications - a refresh must take it over all the same
+        def _adm(pn, unit):
+            return model.AdministrativeInformation(version="7", revision="1", embedded_data_specifications=[
+                model.EmbeddedDataSpecification(
+                    model.ExternalReference((model.Key(model.KeyTypes.GLOBAL_REFERENCE, "urn:ds:iec"),)),
+                    model.DataSpecificationIEC61360(model.PreferredNameTypeIEC61360({"en": pn}), unit=unit))])
+        for rnd, (pn, unit) in enumerate((("first", None), ("second", "m"))):
+            for how in ("update", "get"):
+                try:
+                    b = local_file.LocalFileObjectStore(d)
+                    ob = b.get_identifiable(obj.id)
+                    ob.administration = _adm(pn + "-" + how, unit)
+                    ob.commit()
+                    want_b = canon.canon(ob)
+                    if how == "update":
+                        obj.update()
+                    else:
+                        a.get_identifiable(obj.id)
+                except Exception as e:
+                    return C.Failing(f"rich:refresh-below-attribute:{how}:raises:" + type(e).__name__, f"{how} after another instance's commit raised {e!r}"[:200], case)
+                df = canon.diff(want_b, canon.canon(obj))
+                if df:
+                    return C.Failing(f"rich:refresh-below-attribute:{how}:stale", "another instance committed an administration that differs from the live one only in its "
+                                     f"embedded data specifications; after {how} the live object still differs from the stored one: {df[:160]}", case)
         obj.category = "PARAMETER" if obj.category != "PARAMETER" else None
         want2 = canon.canon(obj)
         try:
